@@ -20,6 +20,10 @@ ASSUMPTIONS = [
     "the primary identifier of DynamicallyDefineDataIdentifier is sub-function + dynamicallyDefinedDataIdentifier (compared when both sides carry one); of ReadMemoryByAddress the number of returned bytes; RequestDownload/Upload, ClearDiagnosticInformation and RequestTransferExit echo nothing",
     "multi-identifier ReadDataByIdentifier answers are attributed to the first identifier (records cannot be separated)",
     "exception *classes* compared: RequestResponseMismatch / MalformedResponse / the UnexpectedNegativeResponse subclass; messages are not",
+    "client composition (Model/ClientMatch.lean): the request loop is the C04 model (Model/ClientIO.lean, its own tie is C04's); C03 defines its read events from bytes (classifyRead via parsePdu) and ties the composition by running reply streams through the real UDSClient.request; that every frame read reaches parse_pdu(raw_resp, request) is a regenerated AST fact (assignments to resp / raw_resp, shape of the ResponsePending loop)",
+    "in the stream worlds writes and reconnects succeed, the transport is a scripted in-memory object (request_unsafe = write + read), time is virtual; frames the client never reads are not enumerated",
+    "suggests_* / raise_for_error / raise_for_mismatch are modelled over the regenerated code lists and the regenerated NRC -> exception map; their bodies are anchored by AST text (a refactoring of the body breaks the obligation without a failing input); a NegativeResponse object with a code outside UDSErrorCodes cannot be constructed, such codes reach the helpers only as bare integers",
+    "trigger_request bookkeeping is modelled as the pair (decoded reply, request) returned by parsePduBound; identity of the Python object (`is`) is checked by the harness, not expressible in the model",
 ]
 
 _C01 = importlib.import_module("props.C01")
@@ -573,6 +577,288 @@ def run(ctx):
     ctx.traces_validated += len(ccases)
     ctx.exhaustive_parts.append("all 4 convenience response classes x all 5 InputOutputControlByIdentifier request classes x {same, different} identifier")
 
+    # ---- 5. reply streams through the real client vs the composed model; 6. the classification helpers
+    run_streams(ctx, impl, rows_by_rsid)
+    run_helpers(ctx, impl, pool)
+
+
+# ------------------------------------------------------------------------------------------------------------------
+# 5. reply STREAMS through the real UDSClient.request on a scripted transport  vs  ClientMatch.request (composed model)
+# ------------------------------------------------------------------------------------------------------------------
+class _Scripted:
+    """transport whose k-th read returns the k-th frame of the script (`T` raises TimeoutError, `C` ConnectionError,
+    b"" is returned as such: end of stream), silence (TimeoutError) afterwards; writes and reconnects succeed"""
+
+    def __init__(self, frames):
+        self.frames = frames
+        self.reads = 0
+        self.writes = 0
+
+    async def write(self, data, timeout=None, tags=None):
+        self.writes += 1
+        return len(data)
+
+    async def read(self, timeout=None, tags=None):
+        k = self.reads
+        self.reads += 1
+        f = self.frames[k] if k < len(self.frames) else "T"
+        if f == "T":
+            raise TimeoutError()
+        if f == "C":
+            raise ConnectionResetError("scripted")
+        return f
+
+    async def request_unsafe(self, data, timeout=None, tags=None):
+        await self.write(data, timeout, tags)
+        return await self.read(timeout, tags)
+
+    async def reconnect(self, timeout=None):
+        return self
+
+    async def close(self):
+        pass
+
+
+STREAM_CAP = 400   # reads per request: far above what the clean loop can do in these worlds (<= (max_retry+1) * 121 * 41 is the
+                   # theoretical bound, the worlds here stay below 130); only a changed loop reaches it
+
+
+async def _stream_batch(impl, jobs):
+    """jobs: (request object, max_retry, frames) -> canonical outcome texts"""
+    from gallia.services.uds.core.client import UDSClient, UDSRequestConfig
+
+    E = impl.E
+    out = []
+    for req, mr, frames in jobs:
+        tr = _Scripted(frames)
+        c = UDSClient(tr, timeout=1.0, max_retry=0)
+        try:
+            r = await c.request(req, UDSRequestConfig(max_retry=mr))
+            res = f"ret:{tr.reads - 1}:{type(r).__name__}:{1 if r.trigger_request is req else 0}"
+        except E.RequestResponseMismatch:
+            res = f"refused:{tr.reads - 1}:mismatch"
+        except E.MalformedResponse:
+            res = f"refused:{tr.reads - 1}:malformed"
+        except E.MissingResponse as e:
+            res = f"missing:{1 if isinstance(e.__cause__, ConnectionError) else 0}"
+        except RuntimeError as e:
+            res = "stuck" if "ResponsePending" in str(e) else f"exc:RuntimeError"
+        except Exception as e:  # noqa: BLE001
+            res = f"exc:{type(e).__name__}"
+        if c.mutex.locked():
+            res += ":mutex-held"
+        out.append(f"{res} reads={tr.reads} writes={tr.writes}")
+    return out
+
+
+def stream_alphabet(ctx, impl, pdu, g, thorough):
+    """per-request alphabet: symbol -> frame; built from the request bytes by position (not by the matcher)"""
+    sid = pdu[0]
+    other = 0x10 if sid != 0x10 else 0x22
+    a = {}
+    if g is not None:
+        a["genuine-pos"] = g
+        # foreign positive: the echoed identifier changed where the request has one, else the reply of another service
+        if len(g) > 1 and sid in (0x10, 0x11, 0x22, 0x27, 0x28, 0x2E, 0x2F, 0x31, 0x36, 0x3E, 0x85, 0x19, 0x2C):
+            c = bytearray(g)
+            c[1] ^= 0x01
+            a["foreign-pos-echo"] = bytes(c)
+    a["foreign-pos-service"] = bytes([other + 0x40, 0x01]) if other == 0x10 else bytes([0x62, 0xF1, 0x90, 0x01])
+    a["genuine-neg"] = bytes([0x7F, sid, 0x31])
+    a["foreign-neg"] = bytes([0x7F, other, 0x31])
+    a["pending-own"] = bytes([0x7F, sid, 0x78])
+    a["pending-foreign"] = bytes([0x7F, other, 0x78])
+    a["busy-own"] = bytes([0x7F, sid, 0x21])
+    a["busy-foreign"] = bytes([0x7F, other, 0x21])
+    a["undecodable-neg"] = bytes([0x7F, sid, 0xAA])
+    a["silence"] = "T"
+    a["eof"] = b""
+    if thorough:
+        a["undecodable-short"] = bytes([0x7F, sid])
+        a["conn-error"] = "C"
+        a["foreign-neg-nrc-is-sid"] = bytes([0x7F, other, sid])
+        if g is not None and len(g) > 1 and sid in (0x22, 0x2E, 0x2F, 0x31):
+            a["undecodable-pos"] = g[:2]
+    return a
+
+
+STREAM_REQS = [   # (kind, constructor) - typed objects, their suppress variants, typed bytes sent raw, opaque raw requests
+    ("rdbi", lambda S: S.ReadDataByIdentifierRequest(0xF190)),
+    ("dsc", lambda S: S.DiagnosticSessionControlRequest(0x03)),
+    ("dsc+suppress", lambda S: S.DiagnosticSessionControlRequest(0x03, suppress_response=True)),
+    ("routine", lambda S: S.RoutineControlRequest.parse_dynamic(bytes.fromhex("31011234aa"))),
+    ("testerPresent", lambda S: S.TesterPresentRequest()),
+    ("wdbi", lambda S: S.WriteDataByIdentifierRequest(0xF190, b"\x01\x02")),
+    ("secAccess", lambda S: S.UDSRequest.parse_dynamic(bytes.fromhex("2701"))),
+    ("transferData", lambda S: S.TransferDataRequest(0x01, b"\xaa\xbb")),
+    ("iocbi", lambda S: S.UDSRequest.parse_dynamic(bytes.fromhex("2f12340301"))),
+    ("raw:typed-bytes", lambda S: S.RawRequest(bytes.fromhex("22f190"))),
+    ("raw:unknown-service", lambda S: S.RawRequest(bytes.fromhex("bf00"))),
+    ("raw:echo-table-service", lambda S: S.RawRequest(bytes.fromhex("2a0102"))),
+    ("raw:truncated-typed", lambda S: S.RawRequest(bytes.fromhex("22f1"))),
+]
+
+
+def _okind(txt):
+    """outcome without counters: `ret:<k>:<Class>:<bound>` / `refused:<k>:<why>` / ..."""
+    return txt.split(" ")[0]
+
+
+def _oclass(txt):
+    o = _okind(txt).split(":")
+    if o[0] == "ret":
+        return "ret" + ("" if o[-1] == "1" else ":unbound")
+    if o[0] == "refused":
+        return "refused:" + o[2]
+    return ":".join(o[:1] if o[0] in ("missing", "connEscaped") else o)
+
+
+def run_streams(ctx, impl, rows_by_rsid, only=None):
+    """exhaustive over the per-request alphabet up to the tier's length, modulo frames nobody reads: a prefix is extended
+    only when the real client or the model consumed all of it (the rest of a longer stream would never be looked at)"""
+    from vloop import vrun
+
+    S = impl.S
+    thorough = not ctx.quick or ctx.widened
+    maxlen = 5 if thorough else 4
+    retries = (0, 1, 2) if thorough else (0, 1)
+    total = 0
+    found = {}
+    per_kind = {}
+    for kind, mk in STREAM_REQS:
+        if only is not None and kind != only:
+            continue
+        req = mk(S)
+        pdu = bytes(req.pdu)
+        g = genuine_reply(ctx.rng, S, pdu, rows_by_rsid, maxrec=2)
+        alpha = stream_alphabet(ctx, impl, pdu, g, thorough)
+        syms = sorted(alpha)
+        for mr in retries:
+            bad_prefix = set()      # streams on which the two sides already differ: their extensions say nothing new
+            level = [()]
+            for depth in range(0, maxlen + 1):
+                if not level:
+                    break
+                jobs = [(req, mr, [alpha[x] for x in st]) for st in level]
+                iouts, _ = vrun(_stream_batch(impl, jobs))
+                lines = []
+                for st in level:
+                    toks = ["T" if alpha[x] == "T" else "C" if alpha[x] == "C" else hx(alpha[x]) for x in st]
+                    lines.append(f"s {mr} {hx(pdu)} {','.join(toks) if toks else '[]'}")
+                mouts = ctx.lean(lines)
+                nxt = []
+                for st, io, mo in zip(level, iouts, mouts):
+                    ctx.ev()
+                    total += 1
+                    mo3 = " ".join(mo.split(" ")[:3])
+                    ctx.kind("stream:len=" + str(len(st)), "stream-outcome:" + _oclass(mo3), "stream-req:" + kind.split(":")[0])
+                    if st:
+                        ctx.nontrivial((pdu, mr, st))
+                    if io != mo3:
+                        bad_prefix.add(st)
+                        if any(st[:i] in bad_prefix for i in range(len(st))):
+                            continue
+                        k = ("raw" if kind.startswith("raw") else "typed", _oclass(io), _oclass(mo3), _okind(io) == _okind(mo3))
+                        if k not in found or len(st) < len(found[k][4]):
+                            found[k] = (kind, req, pdu, mr, st, alpha, io, mo)
+                    ir = int(io.split("reads=")[1].split(" ")[0])
+                    mrd = int(mo3.split("reads=")[1].split(" ")[0])
+                    if max(ir, mrd) > len(st) and depth < maxlen:
+                        nxt += [st + (x,) for x in syms]
+                level = nxt
+        per_kind[kind] = len(alpha)
+    for (k0, ic, mc, same_out), (kind, req, pdu, mr, st, alpha, io, mo) in sorted(found.items(), key=lambda kv: (len(kv[1][4]), kv[0])):
+        frames = [alpha[x] if isinstance(alpha[x], str) else hx(alpha[x]) for x in st]
+        sv = (not same_out) and (ic.startswith(("ret", "refused")) or mc.startswith(("ret", "refused")))
+        ctx.disagree(f"stream:{k0}:{','.join(st)}:impl={ic}:want={mc}" + ("" if not same_out else ":counters"),
+                     f"UDSClient.request({type(req).__name__} {hx(pdu)}, max_retry={mr}) on the reply stream [{', '.join(frames)}] ({', '.join(st)}; silence after): "
+                     f"{io}; the composed model (C04 loop over parse_pdu's classification of every frame) says {' '.join(mo.split(' ')[:3])} ({mo.split(' ')[-1]})",
+                     {"op": "stream", "kind": kind, "request": hx(pdu), "max_retry": mr, "frames": frames, "symbols": list(st)},
+                     impl=io, model=mo, spec_violated=sv, site="UDSClient.request_unsafe / helpers.parse_pdu")
+    ctx.traces_validated += total
+    ctx.notes["streams"] = total
+    ctx.notes["stream_alphabet_sizes"] = per_kind
+    ctx.exhaustive_parts.append(f"reply streams through UDSClient.request: {len(per_kind)} request kinds (typed, suppress, raw) x max_retry {list(retries)} x every "
+                                f"stream of length <= {maxlen} over the per-request alphabet (genuine / foreign / undecodable / own and foreign pending and busy / "
+                                "silence / end of stream" + (" / ConnectionError" if thorough else "") + f"; {min(per_kind.values()) if per_kind else 0}..{max(per_kind.values()) if per_kind else 0} symbols), "
+                                "modulo frames neither side reads")
+
+
+# ------------------------------------------------------------------------------------------------------------------
+# 6. the classification helpers on all 256 codes x response kinds
+# ------------------------------------------------------------------------------------------------------------------
+def impl_helpers(impl, arg, raise_too=True):
+    H, E = impl.H, impl.E
+    fl = ""
+    for f in (H.suggests_service_not_supported, H.suggests_sub_function_not_supported, H.suggests_identifier_not_supported):
+        try:
+            v = f(arg)
+            fl += "1" if v is True else "0" if v is False else "?"
+        except Exception as e:  # noqa: BLE001
+            fl += f"[{type(e).__name__}]"
+    if not raise_too:
+        return fl + " -"
+    try:
+        H.raise_for_error(arg)
+        rz = "returns"
+    except E.UnexpectedNegativeResponse as e:
+        rz = f"raises:{type(e).__name__}:{int(type(e).RESPONSE_CODE)}"
+        if e.response is not arg or e.request is not arg.trigger_request:
+            rz += ":not-bound-to-exchange"
+    except (ValueError, KeyError) as e:
+        rz = type(e).__name__
+    except Exception as e:  # noqa: BLE001
+        rz = f"exc:{type(e).__name__}"
+    return fl + " " + rz
+
+
+def run_helpers(ctx, impl, pool):
+    S, C = impl.S, impl.C
+    listed = {int(c): c for c in C.UDSErrorCodes}
+    cases = []
+    for c in range(256):
+        cases.append((f"h c {c}", c, False, ("code", c)))
+        if c in listed:
+            cases.append((f"h c {c}", listed[c], False, ("enum", c)))
+            n = S.NegativeResponse(0x3E, listed[c])
+            n.trigger_request = S.TesterPresentRequest()
+            cases.append((f"h n {c}", n, True, ("neg", c)))
+            n2 = S.NegativeResponse(0x3E, listed[c])
+            cases.append((f"hu {c}", n2, True, ("neg-unbound", c)))
+    seen = set()
+    for lab, b in pool:
+        if lab.startswith("valid-reply-of") and lab not in seen:
+            seen.add(lab)
+            try:
+                x = S.UDSResponse.parse_dynamic(b)
+            except Exception:  # noqa: BLE001
+                continue
+            x.trigger_request = S.TesterPresentRequest()
+            cases.append(("h p 0", x, True, ("pos:" + type(x).__name__, 0)))
+    mo = ctx.lean([c[0] for c in cases])
+    hfound = {}
+    for (line, arg, rz, (what, code)), m in zip(cases, mo):
+        ctx.ev()
+        ctx.kind("helpers:" + what.split(":")[0])
+        iv = impl_helpers(impl, arg, rz)
+        if line.startswith("hu"):
+            iv = iv.split(" ")[1]
+        if iv != m:
+            fl_differs = (not line.startswith("hu")) and iv.split(" ")[0] != m.split(" ")[0]
+            which = "suggests" if fl_differs else "raise_for_error"
+            shape = re.sub(r"raises:\w+:\d+", "raises", iv).replace(" ", "/")
+            # one report per (helper, argument kind, shape of the wrong answer): the smallest code stands for the family
+            hfound.setdefault((which, what.split(":")[0], shape, m.split(" ")[0] if fl_differs else ""), (line, what, code, iv, m))
+    for (which, wk, shape, mfl), (line, what, code, iv, m) in sorted(hfound.items()):
+        ctx.disagree(f"helpers:{which}:{wk}:impl={shape}" + (f":want={mfl}" if mfl else ""),
+                     f"{which} on {what} (code {code:#04x}): the code gives {iv}, the model over the regenerated tables {m} "
+                     "(flags: suggests_service / sub_function / identifier _not_supported; then raise_for_error)",
+                     {"op": "helper", "line": line, "what": what, "code": code}, impl=iv, model=m, spec_violated=True,
+                     site="helpers.suggests_* / raise_for_error")
+    ctx.traces_validated += len(cases)
+    ctx.exhaustive_parts.append("suggests_service / sub_function / identifier _not_supported on all 256 bare codes, every UDSErrorCodes member, a bound NegativeResponse "
+                                "of every listed code and one positive response of every registry class; raise_for_error on the bound / unbound negatives and the positives")
+
 
 class _OneReply:
     """transport that answers every request with one scripted reply"""
@@ -640,6 +926,24 @@ def replay(ctx, case):
         iv = "1" if S.RawPositiveResponse(b).matches(S.RawRequest(q)) else "0"
         print(f"RawPositiveResponse({hx(b)}).matches(RawRequest({hx(q)})): impl {iv} model {m}")
         return iv != m
+    if op == "stream":
+        from vloop import vrun
+
+        req = dict(STREAM_REQS)[c["kind"]](S)
+        frames = [f if f in ("T", "C") else bytes.fromhex(f) for f in c["frames"]]
+        io = vrun(_stream_batch(impl, [(req, c["max_retry"], frames)]))[0][0]
+        toks = [f if isinstance(f, str) else hx(f) for f in frames]
+        mo = ctx.lean([f"s {c['max_retry']} {c['request']} {','.join(toks) if toks else '[]'}"])[0]
+        print("request:", c["request"], repr(req), "max_retry =", c["max_retry"])
+        print("stream :", ", ".join(f"{t} ({n})" for t, n in zip(toks, c.get("symbols", toks))), "then silence")
+        print("impl   :", io)
+        print("model  :", mo)
+        bad = io != " ".join(mo.split(" ")[:3])
+        print("verdict:", "differs" if bad else "agrees")
+        return bad
+    if op == "helper":
+        print(case)
+        return True
     if op == "conv":
         m = ctx.lean([f"c {c['k']} {'g' if c['qk'] is None else c['qk']} {c['rdid']} {c['qdid']}"])[0]
         print("convenience response", c, "model:", m, "impl:", case.get("impl"))
@@ -658,9 +962,22 @@ MANIFEST = {
                    "correspondence run of the real helpers.parse_pdu (outcome class, response class, raise_for_error / as_exception on "
                    "every accepted negative) over requests of every kind from the C01 generators x structured reply sets (exhaustive per "
                    "kind over response codes, named service ids, first / second reply byte, truncations, bit flips), plus the matches() "
-                   "predicates called directly, RawPositiveResponse.matches and the convenience IOCBI responses."),
+                   "predicates called directly, RawPositiveResponse.matches and the convenience IOCBI responses. "
+                   "Composition with the C04 request loop (Model/ClientMatch.lean): every read of UDSClient.request is classified from its bytes by "
+                   "parsePdu (own 7F sid 78 = pending, 7F sid 21 = busy, foreign = mismatch, undecodable = malformed); proved for every configuration, "
+                   "request and infinite world of write / read / reconnect results: whatever request() returns is the decoded Genuine frame of its last "
+                   "read bound to the request (stale_never_returned), every Foreign frame read - also inside the ResponsePending loop, also 7F xx 78 / "
+                   "7F xx 21 naming another service - ends the request with RequestResponseMismatch at that read (foreign_frame_ends_request, "
+                   "pending_loop_refuses_foreign, only_own_pending_prolongs), undecodable frames with MalformedResponse, a genuine final frame read is "
+                   "returned (genuine_final_returned). The suggests_* helpers are exactly the regenerated code lists, nested, subsets of UDSErrorCodes "
+                   "(suggests_partition, suggests_exact, suggests_monotone); raise_for_error returns iff the reply is positive and raises the class the "
+                   "regenerated map registers for the received code (raise_for_error_exact). Tied by exhaustive reply streams (length <= 4 quick / 5 "
+                   "thorough over a 12..16-symbol per-request alphabet, 13 request kinds, max_retry 0..2) through the real UDSClient.request on a scripted "
+                   "transport, and the helpers on all 256 codes x argument kinds."),
     "level_note": ("Trusted: Lean kernel (axioms propext, Quot.sound, Classical.choice), the table translator, the harness, the C01 / C02 "
-                   "codec oracles (own checks). Empty reply / empty request are outside the contract. Exception messages are not compared."),
-    "technique": "Lean 4 proof (case analysis response kind x request kind over the codec oracles, big-endian lemmas, decide on regenerated tables) + differential correspondence against the real matcher",
+                   "codec oracles (own checks), the C04 loop model (own check). Empty reply / empty request are outside the contract. Exception messages "
+                   "are not compared. Regenerated from the AST: suggests_* code lists, helper bodies, every assignment to resp / raw_resp in request_unsafe, "
+                   "the statements of the ResponsePending loop, the trigger_request binding of parse_pdu."),
+    "technique": "Lean 4 proof (case analysis response kind x request kind over the codec oracles, big-endian lemmas, decide on regenerated tables, composition with the C04 loop through its specification ImpliedX) + differential correspondence against the real matcher, the real client on reply streams and the real helpers",
     "design_ref": "DESIGN.md section 7, C03",
 }
